@@ -681,6 +681,45 @@ func c03R4(c *Ctx) {
 		c.Undecided("C03.R4", "transport.(*Handle).Write", "function not found")
 		return
 	}
+	// the chunk loop may have been cut out into a local helper of Write: the helper is then judged as the
+	// chunk writer, and Write may report what the helper reports
+	writeMsgID := hopID("transport", "Handle", "WriteMsg")
+	hasLoopCall := func(f *ssa.Function) bool {
+		for _, cs := range callSitesIn(f, false, writeMsgID) {
+			if call, ok := cs.(*ssa.Call); ok && len(call.Call.Args) == 2 {
+				if sl, ok := strip(call.Call.Args[1]).(*ssa.Slice); ok {
+					if _, isPhi := sl.Low.(*ssa.Phi); isPhi {
+						return true
+					}
+					if _, isPhi := strip(sl.X).(*ssa.Phi); isPhi {
+						return true
+					}
+				}
+			}
+		}
+		return false
+	}
+	var helper *ssa.Function
+	if !hasLoopCall(fn) {
+		eachInstr(fn, func(ins ssa.Instruction) {
+			if call, ok := ins.(*ssa.Call); ok {
+				if g := staticCallee(&call.Call); g != nil && g != fn && len(g.Blocks) > 0 && P.OwnedBy(g, fn) && hasLoopCall(g) {
+					helper = g
+				}
+			}
+		})
+	}
+	if helper != nil {
+		c03R4Body(c, fn, helper)
+		c03R4Body(c, helper, nil)
+		return
+	}
+	c03R4Body(c, fn, nil)
+}
+
+// c03R4Body judges fn as the chunk writer; with helper != nil fn only delegates the loop to helper.
+func c03R4Body(c *Ctx, fn *ssa.Function, helper *ssa.Function) {
+	P := c.P
 	name := FuncName(fn)
 	c.Analysed(name)
 	maxPT := pkgConst(P, "transport", "MaxPlaintextSize")
@@ -704,9 +743,9 @@ func c03R4(c *Ctx) {
 			}
 		}
 	}
-	c.Floor("C03.R4", "WriteMsg calls in Handle.Write", nCalls, 1)
+	c.Floor("C03.R4", "WriteMsg calls in "+name, nCalls, 1)
 	var peelChunks []*ssa.Slice // second recognised shape: for rest := b; len(rest) > 0; rest = rest[len(chunk):] { chunk := rest[:min(K, len(rest))] }
-	if len(loops) == 0 {
+	if len(loops) == 0 && helper == nil {
 		if !c03Peel(c, fn, name, maxPT, writeMsgID, &peelChunks) {
 			c.Undecided("C03.R4", name+"#chunk-loop", "no chunk loop of a recognised shape found (counted: for i := i0; i < len(b); i += K { WriteMsg(b[i:end]) }; peeling: for rest := b; len(rest) > 0; rest = rest[len(chunk):] { WriteMsg(rest[:min(K, len(rest))]) }); other shapes are outside the recognised idioms")
 			return
@@ -799,6 +838,14 @@ func c03R4(c *Ctx) {
 		if call, ok := strip(v).(*ssa.Call); ok {
 			if b, ok := call.Call.Value.(*ssa.Builtin); ok && b.Name() == "len" {
 				okCount = true
+			}
+		}
+		if helper != nil {
+			// what the chunk-writing helper reported
+			if ex, ok := strip(v).(*ssa.Extract); ok && ex.Index == 0 {
+				if call, ok := ex.Tuple.(*ssa.Call); ok && staticCallee(&call.Call) == helper {
+					okCount = true
+				}
 			}
 		}
 		if phi, ok := v.(*ssa.Phi); ok {
